@@ -289,6 +289,9 @@ class System(object):
             s["cur%d" % t] = IV(-1)       # local lock_id
             s["pause%d" % t] = z3.BoolVal(False)
             s["obs%d" % t] = z3.BoolVal(False)   # pause[t] seen by the solver
+            # thread t sat un-notified in plock.wait when the solver
+            # announced a control point and was not woken by it
+            s["missed%d" % t] = z3.BoolVal(False)
             for c in self.conds:
                 s["w_%s_%d" % (c, t)] = z3.BoolVal(False)
                 s["n_%s_%d" % (c, t)] = z3.BoolVal(False)
@@ -362,8 +365,12 @@ class System(object):
                 s["own_" + n] = z3.If(c, IV(t), s["own_" + n])
         elif kind == "rel":
             for c, n in self._lockname(ins[1], s, t):
-                # releasing a lock one does not hold: only legal for the
-                # plain per-task Lock (released by the solver thread)
+                # releasing a lock one does not hold is legal for the plain
+                # per-task Lock (released by the solver thread); releasing
+                # an UNLOCKED lock raises RuntimeError
+                if ins[1] == "task":
+                    s["err"] = z3.Or(s["err"],
+                                     z3.And(c, s["own_" + n] == -1))
                 s["own_" + n] = z3.If(c, IV(-1), s["own_" + n])
         elif kind == "wait":
             s["own_" + ins[1]] = IV(-1)
@@ -375,6 +382,9 @@ class System(object):
             s["n_%s_%d" % (ins[1], t)] = z3.BoolVal(False)
         elif kind == "notify":
             c = ins[1]
+            before = dict((u, z3.And(s["w_%s_%d" % (c, u)],
+                                     z3.Not(s["n_%s_%d" % (c, u)])))
+                          for u in range(self.nt))
             if ins[2]:
                 for u in range(self.nt):
                     s["n_%s_%d" % (c, u)] = z3.Or(s["n_%s_%d" % (c, u)],
@@ -396,6 +406,11 @@ class System(object):
                 for u in range(self.nt):
                     s["n_%s_%d" % (c, u)] = z3.Or(s["n_%s_%d" % (c, u)],
                                                   chosen[u])
+            if t == 0 and c == "plock":
+                for u in range(self.nt):
+                    s["missed%d" % u] = z3.Or(
+                        s["missed%d" % u],
+                        z3.And(before[u], z3.Not(s["n_%s_%d" % (c, u)])))
 
     def _run(self, s, t, p, depth):
         """plain statements from p until the next sync op (merged over
